@@ -132,6 +132,8 @@ structure Variant where
   emptyNsStrips : Bool := false
   /-- `C14-prefix-for-namespace-skips-shadowed.diff`: `getPrefixForNamespace` skips re-bound prefixes -/
   shadowCheck : Bool := false
+  /-- `C14-lre-default-namespace-not-an-avt.diff`: a plain `xmlns="u"` on a literal result element is no AVT -/
+  noXmlnsAvt : Bool := false
 deriving Repr, DecidableEq
 
 /-- the part of `XSLTEngineImpl` the property is about -/
